@@ -16,7 +16,8 @@ def run(ctx):
     if not ctx.quick:
         ctx.mc("MC_Action", cfg="MC_Action_42", workers=12, universe="all pairs of transitive actions of 2 generators on 4 points")
     ev = ctx.work / "events.ndjson"
-    ctx.dsv("C12", "drive", "--out", ev, "--maxsym", 2 if ctx.quick else 3, timeout=7200)
+    ctx.dsv("C12", "drive", "--out", ev, "--maxsym", 2 if ctx.quick else 3, "--deep", 40 if ctx.quick else 200,
+            "--deep-k", 6 if ctx.quick else 7, timeout=7200)
     for ln in open(ev):
         e = json.loads(ln)
         if len(e.get("tables", [])) >= 2:
